@@ -262,11 +262,24 @@ def run(ctx):
     loops_ = [l_ for l_ in ast.walk(sc) if isinstance(l_, ast.For) and any(x is st for x in ast.walk(l_))]
     outer = [l_ for l_ in loops_ if isinstance(l_.target, ast.Tuple) and len(l_.target.elts) == 2 and isinstance(l_.target.elts[1], ast.Tuple) and len(l_.target.elts[1].elts) == 2
              and isinstance(l_.iter, ast.Call) and dotted(l_.iter.func) == 'enumerate']
-    inner = [l_ for l_ in loops_ if isinstance(l_.target, ast.Name) and isinstance(l_.iter, ast.Call) and dotted(l_.iter.func) == 'range']
-    if not outer or not inner:
+    inner = [l_ for l_ in loops_ if isinstance(l_.target, ast.Name) and isinstance(l_.iter, ast.Call) and dotted(l_.iter.func) == 'range' and l_ is loops_[-1]] or \
+        [l_ for l_ in loops_[-1:] if isinstance(l_.target, ast.Name) and isinstance(l_.iter, ast.Call) and dotted(l_.iter.func) == 'range']
+    I = Bn = Tn = None
+    if outer:
+        I = norm(outer[0].target.elts[0])
+        Bn, Tn = [norm(e) for e in outer[0].target.elts[1].elts]
+    else:
+        # for I in range(len(E)): B, T = E[I]
+        for l_ in loops_:
+            if isinstance(l_.target, ast.Name) and isinstance(l_.iter, ast.Call) and dotted(l_.iter.func) == 'range' and l_.iter.args and 'len(' in norm(l_.iter.args[-1]):
+                for s2 in l_.body:
+                    if isinstance(s2, ast.Assign) and isinstance(s2.targets[0], ast.Tuple) and len(s2.targets[0].elts) == 2 and isinstance(s2.value, ast.Subscript) \
+                            and norm(s2.value.slice) == l_.target.id:
+                        I = l_.target.id
+                        Bn, Tn = [norm(e) for e in s2.targets[0].elts]
+                        outer = [l_]
+    if not outer or not inner or inner[-1] is outer[0]:
         raise AnalysisError('construct not understood: loops of sigma2coeff (for i, (b, t) in enumerate(edges): for lay in range(..))')
-    I = norm(outer[0].target.elts[0])
-    Bn, Tn = [norm(e) for e in outer[0].target.elts[1].elts]
     lv = inner[-1].target.id
     # the stored value with temporaries substituted (paths.expand over the body of the layer loop)
     val = None
